@@ -119,6 +119,58 @@ def filt(mask, s):
     return None if s is None else bytes(c for c, m in zip(s, mask) if m)
 
 
+def f32(x): return struct.unpack("<f", struct.pack("<f", x))[0]
+def bits2d(h): return struct.unpack("<d", struct.pack("<Q", int(h, 16)))[0]
+def bits2f(h): return struct.unpack("<f", struct.pack("<I", int(h, 16)))[0]
+
+def compare_old(a, b, tol, single):
+    """esl_DCompare_old / esl_FCompare_old"""
+    import math
+    if math.isinf(a) and math.isinf(b): return True
+    if math.isnan(a) and math.isnan(b): return True
+    if not math.isfinite(a) or not math.isfinite(b): return False
+    if a == b: return True
+    if abs(a) == 0.0 and abs(b) <= tol: return True
+    if abs(b) == 0.0 and abs(a) <= tol: return True
+    try:
+        d, s_ = (f32(a - b), f32(a + b)) if single else (a - b, a + b)
+    except OverflowError:
+        return False
+    if s_ == 0.0: return False       # x / 0 = inf (or nan): not <= tol
+    return 2.0 * abs(d) / abs(s_) <= tol
+
+def spec_compare(A, B, part):
+    """what the documentation of esl_msa_Compare promises, on two parsed dumps: (mandatory ok, optional ok)"""
+    mand = A.nseq == B.nseq and A.alen == B.alen and A.flags == B.flags
+    if mand:
+        for x, y in zip(A.sq, B.sq):
+            if x["name"] != y["name"] or x["row"] != y["row"] or not compare_old(bits2d(x["wgt"]), bits2d(y["wgt"]), 0.001, False): mand = False
+    opt = all(getattr(A, k) == getattr(B, k) for k in ("name", "desc", "acc", "au", "ss_cons", "sa_cons", "pp_cons", "rf", "mm"))
+    if opt and A.nseq == B.nseq:
+        for k in ("acc", "desc", "ss", "sa", "pp"):
+            if [x[k] for x in A.sq] != [y[k] for y in B.sq]: opt = False
+    if opt:
+        ca, cb = A.f["cutoff"].split(","), B.f["cutoff"].split(",")
+        sa, sb = A.f["cutset"].split(","), B.f["cutset"].split(",")
+        for i in range(6):
+            if sa[i] != sb[i]: opt = False
+            elif sa[i] == "1" and not compare_old(bits2f(ca[i]), bits2f(cb[i]), f32(0.01), True): opt = False
+    return mand, opt
+
+def spec_checksum(d):
+    val = 0
+    for x in d.sq:
+        for c in x["row"]:
+            if not d.digital and c >= 128: c += 0xffffff00
+            val = (val + c) & 0xffffffff
+            val = (val + (val << 10)) & 0xffffffff
+            val ^= val >> 6
+    val = (val + (val << 3)) & 0xffffffff
+    val ^= val >> 11
+    val = (val + (val << 15)) & 0xffffffff
+    return val
+
+
 class C15(Prop):
     id = "C15"
     lean_modules = ["EaselModel.Props.C15"]
@@ -140,7 +192,15 @@ class C15(Prop):
         "compacted_pairs", "newPos_agrees", "nopk_columnSubset_pairs", "wuss2ct_of_class_labels", "pk_roundtrip", "ct2wuss_is_class_labelling", "wuss_ct_wuss_ct_pk",
         "removeBroken_pairs_pk", "columnSubset_pairs_pk", "wuss_ct_wuss_ct",
         "removeBroken_keeps_exactly", "removeBroken_rejects_unbalanced",
-        "ct2wuss_shape", "wussFull_nopk", "wussReverse_involutive")]
+        "ct2wuss_shape", "wussFull_nopk", "wussReverse_involutive",
+        # round 3
+        "columnSubset_msa_sscons_pairs",
+        "compare_ok_iff", "compare_ok_or_fail", "compareMandatory_ok_iff", "compareOptional_ok_iff", "compare_ignores_unparsed", "compare_refl", "compare_clone",
+        "hashNames_ok_iff", "checksum_is_hash_of_rows", "checksum_congr",
+        "convertDegen2X_spec", "generated_degen_ok", "convertDegen2X_text", "symConvert_spec", "symConvert_rejects", "setDefaultWeights_resets",
+        "reasonableRF_shape_partial",
+        "sq_text_digital_text", "sq_digitize_rejects", "sq_digital_text_digital", "sq_revcomp_spec", "sq_revcomp_twice", "textCompl_involutive",
+        "sq_revcomp_text_status", "sq_convertDegen2X_spec")]
     claimed = True
     technique = ("Lean 4 proof about an executable hand model of esl_msa.c / esl_wuss.c (in-place compaction loop = filter-by-mask on every aligned field, well-formedness invariants, "
                  "tag-table rebuild of SequenceSubset, mode-conversion and reverse-complement identities over alphabet tables regenerated from the tree, 27-stack WUSS reader = 27 Dyck recognisers, "
@@ -156,7 +216,11 @@ class C15(Prop):
                   "retained; UNCONDITIONAL nested round trip: esl_ct2wuss and esl_ct2simplewuss succeed on every symmetric nested table and wuss2ct(ct2wuss ct) = ct, hence wuss->ct->wuss->ct = id and 'SS stays balanced WUSS with exactly "
                   "the retained pairs' for every letter-free SS line through repair + compaction; esl_wuss_reverse involutive. The hand model is tied to the working tree by an exact field-by-field differential run; "
                   "monitors restate the property on the implementation's own dumps against independent Python readers.")
-    level_note = ("Round 2: the pseudoknotted round trip is now PROVED (pk_roundtrip: for every symmetric table, crossing pairs included, esl_ct2wuss = eslOK implies wuss2ct(ct2wuss ct) = ct; invariant over "
+    level_note = ("Round 3: the alignment-level statement columnSubset_msa_sscons_pairs (SS_cons of the alignment returned by a DNA/RNA esl_msa_ColumnSubset = exactly the retained pairs, renumbered, "
+                  "for nested and pseudoknotted lines); esl_msa_Compare / CompareMandatory / CompareOptional modelled line by line and PROVED to return eslOK iff the documented fields agree "
+                  "(compare_ok_iff; never any status but eslOK/eslFAIL, never an out-of-bounds read; unparsed markup and abc ignored); esl_msa_Hash / CheckUniqueNames = names distinct; "
+                  "esl_msa_Checksum = Jenkins hash of the concatenated rows; ConvertDegen2X / SymConvert / SetDefaultWeights keep the alignment well formed and change exactly what they document; "
+                  "ReasonableRF (useconsseq=FALSE) shape; esl_sq_Digitize/Textize/ReverseComplement/ConvertDegen2X on a sequence fetched from an alignment (round trips, what is kept and what is discarded). Round 2: the pseudoknotted round trip is now PROVED (pk_roundtrip: for every symmetric table, crossing pairs included, esl_ct2wuss = eslOK implies wuss2ct(ct2wuss ct) = ct; invariant over "
                   "the rb[]/auxpk lettering loop), hence wuss->ct->wuss->ct preserves the pair table of ANY balanced WUSS string (wuss_ct_wuss_ct_pk), RemoveBrokenBasepairs spells exactly the retained pairs "
                   "(removeBroken_pairs_pk) and the compacted SS line reads as those pairs renumbered (compacted_pairs, columnSubset_pairs_pk). Remaining conditions: for tables WITH crossing pairs the "
                   "theorems are conditional on esl_ct2wuss returning eslOK (it may refuse, eslEINVAL documented, a table whose greedy lettering needs more than A..Z; on nested / letter-free input success "
@@ -170,8 +234,12 @@ class C15(Prop):
     assumptions = ["allocation never fails (eslEMEM paths not modelled); leaks on esl_ct2wuss error paths are outside the property (suppressed in LSan)",
                    "alignments are constructed through the public API (esl_msa_Create, Set*, AddGS, AppendGC/GR), not parsed from files (C01/C03 cover the parsers)",
                    "MarkFragments thresholds evaluated in binary32/binary64 by the driver (L0); esl_msa_Copy modelled through Create+Copy only",
-                   "esl_sq.c: only esl_sq_FetchFromMSA is modelled (name/acc/desc/source, ungapped sequence, SS and GR dealigned in register); other esl_sq conversions are not",
-                   "not modelled: esl_msa_ReasonableRF, SymConvert, Checksum, Hash, Compare*, Sample"]
+                   "esl_msa_Compare model: an optional per-sequence array is non-NULL iff one of its entries is (checked by the harness on every compared alignment, 'repinv='); "
+                   "esl_DCompare_old / esl_FCompare_old are parameters of the model and the theorems, evaluated in binary64/binary32 by the driver (L0)",
+                   "esl_msa_ReasonableRF: only useconsseq=FALSE is modelled (weight arithmetic a parameter, binary64 in the driver)",
+                   "esl_sq.c: FetchFromMSA, Digitize, Textize, ReverseComplement, ConvertDegen2X are modelled on the observable content of the sequence object (name/acc/desc/source, residues, ss, extra "
+                   "markup, start/end, mode)",
+                   "not modelled: esl_msa_Sample, esl_msa_GuessAlphabet, esl_msa_Format* (printf wrappers over the modelled Set*), esl_msa_Expand/Sizeof, esl_sq_Copy/Compare/Grow/Block*/CountResidues/Checksum"]
     rule = ("cases = construction of a random annotated alignment + chain of transformations with a full dump after each, or WUSS conversions; "
             "non-trivial = at least two successful operations and no fault; distinct by implementation output trace")
     quick_budget_s = 60
@@ -360,6 +428,92 @@ class C15(Prop):
                 if rng.random() < 0.2: ops += ["fetch i=%d w=b" % rng.randrange(0, nseq)]
         return {"name": "msa%d" % idx, "ops": ops, "sticky": sticky}
 
+    # ------------------------------------------------------------------ esl_msa_Compare / Checksum / Hash / symbol conversions
+    def tweak(self, rng, mode, nseq, alen, rows, digital):
+        """one small edit of alignment A (ops), chosen to land on each side of every comparison esl_msa_Compare makes"""
+        i = rng.randrange(nseq)
+        r = rng.random()
+        def rs(n=None, alpha=string.ascii_letters + string.digits):
+            return "".join(rng.choice(alpha) for _ in range(n if n is not None else rng.randrange(1, 8)))
+        if r < 0.10: return ["sq i=%d name=%s" % (i, hx(rs()))]
+        if r < 0.30:
+            base = rng.choice([1.0, 0.5, 2.0, 0.0, 1e-4, 0.002, -1.0, 3.25])
+            eps = rng.choice([0.0, 1e-4, 5e-4, 9.9e-4, 1.01e-3, 2e-3, 1e-2, -9.9e-4, -1.01e-3])
+            v = rng.choice([base * (1 + eps), base * (1 + eps), float("inf"), float("-inf"), float("nan"), 0.0, -0.0, 0.00099, 0.00101, -base])
+            return ["sq i=%d wgt=%s" % (i, dbits(v))]
+        if r < 0.40 and not digital and alen:
+            row = list(rows[i]); k = rng.randrange(alen); row[k] = rng.choice("ACGUacgu-.~" + chr(rng.choice([0x80, 0xff, 0xc3])))
+            rows[i] = "".join(row)
+            return ["sq i=%d seq=%s" % (i, hx(rows[i]))]
+        if r < 0.50:
+            f = rng.choice(["name", "desc", "acc", "au"]); return ["col %s=%s" % (f, hx(rs()))]
+        if r < 0.58:
+            f = rng.choice(["ss_cons", "sa_cons", "pp_cons", "rf", "mm"]); return ["col %s=%s" % (f, hx(rs(alen, ".:x<>")))] if alen else []
+        if r < 0.68: return ["clr f=" + rng.choice(["name", "desc", "acc", "au", "ss_cons", "sa_cons", "pp_cons", "rf", "mm"])]
+        if r < 0.80:
+            base = rng.choice([25.0, 0.0, -3.5, 100.0, 0.005, 0.02])
+            eps = rng.choice([0.0, 1e-3, 5e-3, 9.9e-3, 1.01e-2, 2e-2, -9.9e-3, -1.01e-2])
+            v = rng.choice([base * (1 + eps), base * (1 + eps), float("inf"), float("nan"), 0.0, 0.0099, 0.0101, -base])
+            return ["cut i=%d v=%s" % (rng.randrange(6), fbits(v))]
+        if r < 0.85: return ["clrcut i=%d" % rng.randrange(6)]
+        if r < 0.93:
+            f = rng.choice(["acc", "desc", "ss", "sa", "pp"])
+            return ["sq i=%d %s=%s" % (i, f, hx(rs(alen if f in ("ss", "sa", "pp") else None, "._:" if f != "acc" else string.ascii_uppercase)))] if alen else []
+        # unparsed markup: esl_msa_Compare must not look at it
+        return [rng.choice(["comment v=" + hx(rs()), "gf tag=%s v=%s" % (hx(rs(2)), hx(rs())), "gc tag=%s v=%s" % (hx(rs(3)), hx(rs(alen))),
+                            "gs tag=%s i=%d v=%s" % (hx(rs(2)), i, hx(rs())), "gr tag=%s i=%d v=%s" % (hx(rs(3)), i, hx(rs(alen)))])]
+
+    def cmp_case(self, rng, idx):
+        mode, nseq, alen, rows, ops = self.rand_alignment(rng, False)
+        sticky = len(ops)
+        digital = False
+        if mode != "text" and rng.random() < 0.6: ops += ["digitize abc=" + mode]; digital = True
+        if rng.random() < 0.15:     # a duplicated sequence name (esl_msa_Hash / CheckUniqueNames)
+            k = rng.randrange(nseq); ops += ["sq i=%d name=%s" % (k, hx("dupname")), "sq i=%d name=%s" % (rng.randrange(nseq), hx("dupname"))]
+        ops += ["dump", "checksum", "hash", "uniq", "hash"]
+        ops += [rng.choice(["clone", "copy"]), "dump w=b", "compare", "checksum w=b"]
+        for _ in range(rng.randrange(1, 5)):
+            r = rng.random()
+            if r < 0.7:
+                t = self.tweak(rng, mode, nseq, alen, rows, digital)
+                if not t: continue
+                ops += t + ["dump", "compare", "cmpmand", "cmpopt", "checksum"]
+                if rng.random() < 0.3: ops += ["swap", "dump", "dump w=b", "compare"]      # the comparison in the other direction
+                if rng.random() < 0.3: ops += [rng.choice(["clone", "copy"]), "dump w=b", "compare"]
+            elif r < 0.8:
+                cm = self.rand_mask(rng, nseq)
+                if rng.random() < 0.5 or "1" not in cm: cm = "1" * nseq
+                ops += ["seqsubset mask=" + cm, "dump w=b", "dump", "compare", "cmpmand", "checksum w=b", "uniq w=b"]
+            elif r < 0.88: ops += ["defwgts", "dump", "validate", "compare"]
+            elif r < 0.94 and digital: ops += ["degen2x", "dump", "compare", "checksum", "degen2x", "dump"]
+            elif not digital:
+                olds = "".join(rng.sample("ACGUacgu-._~Nn", rng.randrange(1, 6)))
+                news = rng.choice(["".join(rng.choice("acguACGU-.xX") for _ in olds), rng.choice("-.xN"), "ab" + "c" * len(olds), olds.upper()])
+                if rng.random() < 0.1: olds = olds + olds[0]          # a repeated old symbol: strchr finds the first
+                ops += ["symconvert old=%s new=%s" % (hx(olds), hx(news)), "dump", "compare", "checksum"]
+            if rng.random() < 0.25:
+                ops += ["dump", "reasonablerf symfrac=" + dbits(rng.choice([0.5, 0.0, 1.0, 0.3, 0.75, rng.random(), 1.5, -1.0]))]
+        return {"name": "cmp%d" % idx, "ops": ops, "sticky": sticky}
+
+    def sq_case(self, rng, idx):
+        """esl_sq.c conversions of a sequence taken from an alignment: Digitize / Textize / ReverseComplement / ConvertDegen2X"""
+        mode, nseq, alen, rows, ops = self.rand_alignment(rng, False)
+        sticky = len(ops)
+        digital = mode != "text" and rng.random() < 0.5
+        if digital: ops += ["digitize abc=" + mode]
+        k = rng.randrange(nseq)
+        has_xr = False
+        ops += ["dump", "fetch i=%d keep=1" % k, "sqdump"]
+        for _ in range(rng.randrange(1, 6)):
+            r = rng.random()
+            if r < 0.3: ops += ["sqdigitize abc=" + (mode if mode != "text" and rng.random() < 0.8 else rng.choice(["rna", "dna", "amino"])), "sqdump"]
+            elif r < 0.55: ops += ["sqtextize", "sqdump"]
+            elif r < 0.8:
+                if not has_xr: ops += ["sqrevcomp", "sqdump"]; 
+                if not has_xr and rng.random() < 0.6: ops += ["sqrevcomp", "sqdump"]
+            else: ops += ["sqdegen2x", "sqdump"]
+        return {"name": "sq%d" % idx, "ops": ops, "sticky": sticky}
+
     def wuss_case(self, rng, idx, maxlen):
         ops = []
         for _ in range(rng.randrange(1, 6)):
@@ -400,6 +554,18 @@ class C15(Prop):
                                                "colsubset mask=1 cyc=1", "dump", "validate"], "sticky": 4},
             {"name": "rnasep", "ops": ["roundtrip ss=" + hx("{{{{{{{{{{{{{{{{{{,<<<<<<<<<<<<<-<<<<<____>>>>>>>>>->>>>>>>>>,,,,AAA-AAAAA[[[[---BBBB-[[[[[<<<<<_____>>>>><<<<____>>>->(((---(((((,,,,,,,,,,,,<<<<<--<<<<<<<<____>>>>>->>>>>>-->>,,,,,,,<<<<<<_____>>>>>>,,,,,,,,,<<<<__>>>>,,,,<<<<<<<<____>>>>>>>>,,,,,,,)))))--))))]]]]]]]]]]]],,,<<<<------<<<<<<----<<<<<_bbbb>>>>>>>>>>>----->>>>,,,,,,<<<<<<<<____>>>>>>>>,,,,aaaaaaaa----------}}}}}}}}}}}}}}}}}}:::")], "sticky": 0},
             {"name": "pk-nested-letters", "ops": ["roundtrip ss=" + hx("<A>:<A>:<A>aaa"), "roundtrip ss=" + hx("<<A>>a<B>b"), "roundtrip ss=" + hx("AaAa"), "roundtrip ss=" + hx("<(>)"), "roundtrip ss=" + hx("<a>A")], "sticky": 0},
+            # regression (fixed by 945fd6c): esl_msa_ReasonableRF(useconsseq=FALSE) on a digital alignment once stored through counts == NULL
+            {"name": "reasonablerf-digital-witness", "ops": ["new nseq=2 alen=4", "sq i=0 seq=" + hx("AC-U"), "sq i=1 seq=" + hx("A--U"), "digitize abc=rna", "dump",
+                                                             "reasonablerf symfrac=" + dbits(0.5)], "sticky": 4},
+            # regression (fixed by c71354f): esl_sq_ReverseComplement once freed xr[] but kept nxr > 0 (NULL deref in esl_sq_Destroy)
+            {"name": "sq-revcomp-xr-witness", "ops": ["new nseq=1 alen=4", "sq i=0 seq=" + hx("AC-U"), "gr tag=" + hx("CSA") + " i=0 v=" + hx("12.4"), "dump", "fetch i=0 keep=1", "sqrevcomp", "sqdump"],
+             "sticky": 3},
+            {"name": "sq-basics", "ops": ["new nseq=1 alen=6", "sq i=0 seq=" + hx("AC-UnX") + " ss=" + hx("<.>..."), "dump", "fetch i=0 keep=1", "sqdump", "sqrevcomp", "sqdump", "sqrevcomp", "sqdump",
+                                          "sqdigitize abc=rna", "sqdump", "sqdegen2x", "sqdump", "sqrevcomp", "sqdump", "sqtextize", "sqdump", "sqdigitize abc=amino", "sqdump", "sqrevcomp", "sqdump"], "sticky": 2},
+            {"name": "compare-basics", "ops": ["new nseq=2 alen=3", "sq i=0 seq=" + hx("ACG") + " wgt=" + dbits(1.0), "sq i=1 seq=" + hx("A-G") + " wgt=" + dbits(2.0), "col name=" + hx("x") + " haswgts=1",
+                                               "cut i=0 v=" + fbits(25.0), "dump", "clone", "dump w=b", "compare", "sq i=1 wgt=" + dbits(2.0019), "dump", "compare", "sq i=1 wgt=" + dbits(2.0021), "dump", "compare",
+                                               "sq i=1 wgt=" + dbits(2.0), "cut i=0 v=" + fbits(25.2), "dump", "compare", "cut i=0 v=" + fbits(25.3), "dump", "compare", "cut i=0 v=" + fbits(25.0), "gf tag=" + hx("AA") + " v=" + hx("zz"),
+                                               "dump", "compare", "clr f=name", "dump", "compare", "cmpmand", "cmpopt", "checksum", "hash", "uniq", "reasonablerf symfrac=" + dbits(0.5)], "sticky": 5},
         ]
         return c
 
@@ -411,11 +577,13 @@ class C15(Prop):
         n_wuss = 1500 if quick else 30000
         for i in range(n_msa): out.append(self.msa_case(rng, i, big=(i % 5 == 0)))
         for i in range(n_wuss): out.append(self.wuss_case(rng, i, 300 if (quick and i % 6) else 2000))
+        for i in range(1500 if quick else 20000): out.append(self.cmp_case(rng, i))
+        for i in range(1000 if quick else 15000): out.append(self.sq_case(rng, i))
         hist = {}
         for c in out:
             for o in c["ops"]:
                 k = o.split()[0]
-                if k not in ("sq", "new", "col", "cut", "comment", "gf", "gs", "gc", "gr", "dump", "validate"): hist[k] = hist.get(k, 0) + 1
+                if k not in ("new", "comment", "gf", "gs", "gc", "gr", "dump", "validate"): hist[k] = hist.get(k, 0) + 1
         self._hist = hist
         return out
 
@@ -431,6 +599,8 @@ class C15(Prop):
         if len(out) != len(ops):
             return Failure("monitor", "harness answered %d lines for %d ops" % (len(out), len(ops)))
         A = B = None      # last parsed dumps of slot A / B
+        freshA = freshB = False      # is that dump the current content of the slot
+        sqst = {"cur": None, "pend": None}      # last sqdump of the kept sequence, pending conversion
         prevA = None
         pending = None    # (op words, dump of A before)
         for op, l in zip(ops, out):
@@ -442,11 +612,11 @@ class C15(Prop):
                 wf = d.wellformed()
                 if wf: return Failure("monitor", "after %r the alignment is not well formed: %s" % (pending[0] if pending else "construction", wf))
                 if kv.get("w") == "b":
-                    B = d
+                    B = d; freshB = True
                     f = self.check_b(pending, A, B)
                 else:
                     f = self.check_a(pending, A, d, l)
-                    prevA, A = A, d
+                    prevA, A = A, d; freshA = True
                     A.line = l
                     if pending and pending[0][0] not in ("seqsubset", "clone", "copy", "markfrag"): pending = None
                 if f: return f
@@ -461,13 +631,43 @@ class C15(Prop):
                 if l not in ("ok", "nomsa"): return Failure("monitor", "esl_msa_Validate fails after %r: %s" % (pending[0] if pending else "construction", l))
             elif name == "swap":
                 if l != "ok": continue
-                A, B = B, A; pending = None
+                A, B = B, A; pending = None; freshA, freshB = freshB, freshA
                 if A is not None and not hasattr(A, "line"): A.line = None
-            elif name in ("new", "sq", "col", "cut", "comment", "gf", "gs", "gc", "gr"):
-                pass
+            elif name in ("new", "sq", "col", "cut", "comment", "gf", "gs", "gc", "gr", "clr", "clrcut"):
+                freshA = False; pending = None
+            elif name in ("compare", "cmpmand", "cmpopt"):
+                if l == "bad-op": continue
+                if "repinv=ok" not in l: return Failure("monitor", "an optional per-sequence array is allocated but empty (model assumption of esl_msa_Compare broken): " + l)
+                if freshA and freshB and A is not None and B is not None and A.ok and B.ok:
+                    mand, opt = spec_compare(A, B, name)
+                    want = {"compare": mand and opt, "cmpmand": mand, "cmpopt": opt}[name]
+                    got = l.split()[0]
+                    if got not in ("ok", "fail") or (got == "ok") != want:
+                        return Failure("monitor", "esl_msa_%s returned %s although the two alignments are %s in the fields it documents"
+                                       % ({"compare": "Compare", "cmpmand": "CompareMandatory", "cmpopt": "CompareOptional"}[name], got, "equal" if want else "different"))
+            elif name == "checksum":
+                cur, fresh = (B, freshB) if kv.get("w") == "b" else (A, freshA)
+                if l == "nomsa" or cur is None or not fresh or not cur.ok: continue
+                if l != "ok sum=%08x" % spec_checksum(cur): return Failure("monitor", "esl_msa_Checksum: %s, the documented hash of the aligned residues is %08x" % (l, spec_checksum(cur)))
+            elif name in ("hash", "uniq"):
+                cur, fresh = (B, freshB) if kv.get("w") == "b" else (A, freshA)
+                if l == "nomsa" or cur is None or not fresh or not cur.ok: continue
+                uniq = len(set(x["name"] for x in cur.sq)) == cur.nseq
+                want = "ok" if uniq else ("edup" if name == "hash" else "fail")
+                if l != want: return Failure("monitor", "esl_msa_%s: %s on an alignment whose names are %s" % ("Hash" if name == "hash" else "CheckUniqueNames", l, "unique" if uniq else "not unique"))
+            elif name == "fetch" and False: pass
+            elif name in ("sqdump", "sqdigitize", "sqtextize", "sqrevcomp", "sqdegen2x"):
+                f = self.check_sq(name, kv, l, sqst)
+                if f: return f
+            elif name == "reasonablerf":
+                if A is None or not freshA or not A.ok: continue
+                f = self.check_rf(A, kv["symfrac"], l)
+                if f: return f
             elif name in ("colsubset", "minimgaps", "minimgapstext", "nogaps", "nogapstext", "seqsubset", "clone", "copy", "digitize",
-                          "textize", "revcomp", "flushleft", "markfrag", "markfragold", "rbb"):
-                pending = (w, kv, l, A)
+                          "textize", "revcomp", "flushleft", "markfrag", "markfragold", "rbb", "degen2x", "symconvert", "defwgts"):
+                pending = (w, kv, l, A if freshA else None)
+                if name in ("seqsubset", "clone", "copy"): freshB = False
+                elif name != "markfrag": freshA = False
             else:
                 f = self.check_wuss(name, kv, l)
                 if f: return f
@@ -541,6 +741,89 @@ class C15(Prop):
             span = (idx[-1] - idx[0] + 1) if idx else (0 - (d.alen + 1) + 1 if d.digital else (-1 - d.alen + 1))
             want += "1" if span < minspan else "0"
         if want != bits: return Failure("monitor", "esl_msa_MarkFragments(thresh=%r): got %s, the span rule gives %s" % (t, bits, want))
+        return None
+
+    COMPL = dict(zip("ACGTURYMKSWHBVDNXacgturymkswhbvdnx._-~*", "TGCAAYRKMSWDVBHNXtgcaayrkmswdvbhnx._-~*"))
+    def check_sq(self, name, kv, l, st):
+        """esl_sq_Digitize / Textize / ReverseComplement / ConvertDegen2X observed through dumps of the kept sequence"""
+        if name != "sqdump":
+            st["pend"] = (name, kv, l); return None
+        if not l.startswith("ok "): st["cur"] = None; st["pend"] = None; return None
+        d = {}; xr = []
+        for w in l.split()[1:]:
+            k, v = w.split("=", 1)
+            if k == "xr": xr.append(v)
+            else: d[k] = v
+        d["xr"] = xr
+        if d.get("pad") == "BAD": return Failure("monitor", "a digital sequence lost the leading NUL of its ss / extra markup (1..n indexing)")
+        seq = unhx(d["seq"]) or b""
+        if int(d["n"]) != len(seq): return Failure("monitor", "sequence object: n disagrees with the sequence")
+        for lab, v in [("ss", d["ss"])] + [("xr", x.split(",")[1]) for x in xr]:
+            if v != "~" and len(unhx(v) or b"") != len(seq): return Failure("monitor", "sequence object: %s annotation has %d symbols for %d residues" % (lab, len(unhx(v) or b""), len(seq)))
+        prev, pend = st["cur"], st["pend"]
+        st["cur"], st["pend"] = d, None
+        if prev is None or pend is None: return None
+        op, kv, res = pend
+        pseq = unhx(prev["seq"]) or b""
+        same_meta = all(prev[k] == d[k] for k in ("name", "acc", "desc", "src"))
+        if not same_meta: return Failure("monitor", op + " changed name/accession/description/source of the sequence")
+        if res.split()[0] != "ok" and not (op == "sqrevcomp" and res == "einval"):
+            if prev != d: return Failure("monitor", "%s failed (%s) but modified the sequence" % (op, res))
+            return None
+        if op in ("sqdigitize", "sqtextize", "sqdegen2x") and (prev["ss"] != d["ss"] or prev["xr"] != d["xr"] or prev["start"] != d["start"] or prev["end"] != d["end"]):
+            return Failure("monitor", op + " changed the annotation or the coordinates of the sequence")
+        if op == "sqdigitize" and prev["abc"] == "none":
+            sym = ABC[d["abc"]][2]
+            txt = bytes(ord(sym[x]) if x < len(sym) else 0 for x in seq)
+            want = pseq.upper().replace(b".", b"-").replace(b"_", b"-")
+            if d["abc"] == "rna": want = want.replace(b"T", b"U")
+            if d["abc"] == "dna": want = want.replace(b"U", b"T")
+            if d["abc"] in ("rna", "dna"): want = want.replace(b"X", b"N").replace(b"I", b"A")
+            if txt != want: return Failure("monitor", "esl_sq_Digitize: %r became %r" % (pseq, txt))
+        elif op == "sqtextize" and prev["abc"] != "none":
+            sym = ABC[prev["abc"]][2]
+            if bytes(ord(sym[x]) if x < len(sym) else 0 for x in pseq) != seq or d["abc"] != "none": return Failure("monitor", "esl_sq_Textize: not the symbol string of the digital sequence")
+        elif op == "sqdegen2x" and prev["abc"] != "none":
+            K, Kp, _ = ABC[prev["abc"]]
+            if bytes((Kp - 3) if K < x < Kp - 2 else x for x in pseq) != seq: return Failure("monitor", "esl_sq_ConvertDegen2X: not the degenerate-to-unknown map")
+        elif op == "sqrevcomp":
+            if d["ss"] != "~" or d["xr"]: return Failure("monitor", "esl_sq_ReverseComplement kept structure / residue markup it documents as invalidated")
+            if (prev["start"], prev["end"]) != (d["end"], d["start"]): return Failure("monitor", "esl_sq_ReverseComplement did not swap start and end")
+            if prev["abc"] == "none":
+                want = bytes(ord(self.COMPL.get(chr(c), "N")) for c in reversed(pseq))
+                bad = any(chr(c) not in self.COMPL for c in pseq)
+                if want != seq or (res == "einval") != bad: return Failure("monitor", "esl_sq_ReverseComplement(text): %r -> %r (%s)" % (pseq, seq, res))
+            else:
+                compl = {0: 3, 1: 2, 2: 1, 3: 0}
+                if len(seq) != len(pseq) or any((x < 4 or y < 4) and compl.get(x) != y for x, y in zip(pseq, reversed(seq))): return Failure("monitor", "esl_sq_ReverseComplement(digital): not the reverse complement")
+                pp = st.get("rc_prev")
+                if pp is not None and pp[0] == prev["seq"] and pp[1] != d["seq"]: return Failure("monitor", "esl_sq_ReverseComplement twice is not the identity on a digital sequence")
+                st["rc_prev"] = (d["seq"], prev["seq"])
+                return None
+        st["rc_prev"] = None
+        return None
+
+    def check_rf(self, d, sbits, l):
+        """esl_msa_ReasonableRF(msa, symfrac, FALSE): 'x' where the weighted fraction of residues (gaps in the denominator, missing
+        data ignored) reaches symfrac and at least one residue is present, '.' elsewhere"""
+        if not l.startswith("ok ss="): return Failure("monitor", "esl_msa_ReasonableRF failed: " + l[:60])
+        symfrac = bits2d(sbits); got = unhx(l[6:]) or b""
+        want = bytearray()
+        for c in range(d.alen):
+            r = tot = 0.0
+            for i in range(d.nseq):
+                x = d.sq[i]["row"][c]; w = bits2d(d.sq[i]["wgt"])
+                if d.digital:
+                    K, Kp, _ = ABC[d.abc]
+                    if is_residue_code(d.abc, x): r += w; tot += w
+                    elif x == K: tot += w
+                else:
+                    if x < 128 and chr(x).isalpha(): r += w; tot += w
+                    else: tot += w
+            try: cons = r > 0.0 and r / tot >= symfrac
+            except ZeroDivisionError: cons = r > 0.0 and (float("inf") if r > 0 else float("nan")) >= symfrac
+            want.append(0x78 if cons else 0x2e)
+        if bytes(want) != got: return Failure("monitor", "esl_msa_ReasonableRF(symfrac=%r): %r, the weighted-occupancy rule gives %r" % (symfrac, got, bytes(want)))
         return None
 
     def check_fetch(self, d, i, l):
@@ -682,6 +965,29 @@ class C15(Prop):
             prev2 = getattr(before, "rc_from", None)
             if prev2 is not None and prev2 != line: return Failure("monitor", "reverse complement applied twice is not the identity")
             after.rc_from = getattr(before, "line", None)
+            return None
+        if name in ("degen2x", "symconvert", "defwgts"):
+            if pending[3] is None: return None
+            if after.nseq != before.nseq or after.alen != before.alen: return Failure("monitor", name + " changed the dimensions")
+            bf, af = dict(before.f), dict(after.f)
+            if name == "defwgts": bf["flags"] = af["flags"] = None
+            if bf != af or before.gc != after.gc or before.gr != after.gr or before.gs != after.gs or before.gf != after.gf or before.comment != after.comment:
+                return Failure("monitor", name + " changed something besides the " + ("weights" if name == "defwgts" else "rows"))
+            for i in range(before.nseq):
+                a, b = before.sq[i], after.sq[i]
+                skip = "wgt" if name == "defwgts" else "row"
+                if {k: v for k, v in a.items() if k != skip} != {k: v for k, v in b.items() if k != skip}: return Failure("monitor", "%s changed sequence %d" % (name, i))
+                if name == "defwgts":
+                    if b["wgt"] != "3ff0000000000000": return Failure("monitor", "SetDefaultWeights: weight of sequence %d is not 1.0" % i)
+                elif name == "degen2x":
+                    K, Kp, _ = ABC[before.abc]
+                    if bytes((Kp - 3) if K < x < Kp - 2 else x for x in a["row"]) != b["row"]:
+                        return Failure("monitor", "ConvertDegen2X: row %d is not the old row with every degenerate code replaced by the unknown-residue code" % i)
+                else:
+                    olds, news = unhx(kv["old"]) or b"", unhx(kv["new"]) or b""
+                    want = bytes((news[0] if len(news) == 1 else news[olds.index(c)]) if c in olds else c for c in a["row"])
+                    if want != b["row"]: return Failure("monitor", "SymConvert(%r -> %r): row %d is %r, expected %r" % (olds, news, i, b["row"], want))
+            if name == "defwgts" and (after.flags & 1 or after.flags | 1 != before.flags | 1): return Failure("monitor", "SetDefaultWeights: flags")
             return None
         if name in ("flushleft", "markfragold"):
             for i in range(before.nseq):
